@@ -226,6 +226,19 @@ func (this *DefaultInputBitStream) readFromInputStream(count int) (int, error) {
 
 	this.read += (int64(this.position << 3))
 	size, err := this.is.Read(this.buffer[0:count])
+
+	// Short read: keep reading until whole 64-bit words are available (or EOF/error)
+	for err == nil && size > 0 && size < count && size&7 != 0 {
+		var n int
+		n, err = this.is.Read(this.buffer[size:count])
+
+		if n <= 0 {
+			break
+		}
+
+		size += n
+	}
+
 	this.position = 0
 
 	if size <= 0 {
